@@ -200,6 +200,22 @@ def builders():
         w0, w1 = ufl.split(Coefficient(W))
         return w0 * u0 * v0 * ufl.Measure("dx", domain=m0) + w1 * u1 * v1 * ufl.Measure("dx", domain=m1)
 
+    @add("unexpanded derivative w.r.t. a tuple of coefficients")
+    def _():
+        m = new_mesh()
+        V, Q = FunctionSpace(m, L(ufl.triangle, 2, (2,))), FunctionSpace(m, L(ufl.triangle, 1))
+        u, p = Coefficient(V), Coefficient(Q)       # created first: their numbers are the counter's start and start + 1
+        F = (inner(grad(u), grad(u)) + p * ufl.div(u) + p * p) * dx
+        return ufl.derivative(F, (p, u))       # listed in reverse creation order
+
+    @add("unexpanded derivative w.r.t. three coefficients and a constant factor")
+    def _():
+        m = new_mesh()
+        Q = FunctionSpace(m, L(ufl.triangle, 1))
+        a, b, c_ = Coefficient(Q), Coefficient(Q), Coefficient(Q)
+        k = ufl.Constant(m)
+        return ufl.derivative(k * a * b * c_ * dx + a * a * ds, (c_, a, b))
+
     @add("tetrahedron, quadratic geometry")
     def _():
         m = new_mesh(ufl.tetrahedron, 2)
@@ -354,4 +370,20 @@ def variants():
         f = Coefficient(V)
         return C.Interpolate(f * f, V2) * TestFunction(V) * dx
     pair("interpolate target space degree", interp, {"odeg": 2}, {"odeg": 3})
+    # a MeshSequence: the geometry of a component mesh that no measure integrates over still enters through the functions living on the sequence
+    def mseq(gdeg):
+        m0, m1 = new_mesh(), new_mesh(ufl.triangle, gdeg)
+        W = FunctionSpace(ufl.MeshSequence([m0, m1]), E.MixedElement([L(ufl.triangle, 1), L(ufl.triangle, 1)], make_cell_sequence=True))
+        _w0, w1 = ufl.split(Coefficient(W))
+        v0, _v1 = ufl.TestFunctions(W)
+        return inner(grad(w1), grad(v0)) * ufl.Measure("dx", domain=m0)
+    pair("mesh sequence: coordinate degree of the component mesh that is not integrated over", mseq, 1, 2)
+
+    def mseq_first(gdeg):
+        m0, m1 = new_mesh(ufl.triangle, gdeg), new_mesh()
+        W = FunctionSpace(ufl.MeshSequence([m0, m1]), E.MixedElement([L(ufl.triangle, 1), L(ufl.triangle, 2)], make_cell_sequence=True))
+        w0, _w1 = ufl.split(Coefficient(W))
+        _v0, v1 = ufl.TestFunctions(W)
+        return w0 * v1 * ufl.Measure("dx", domain=m1)
+    pair("mesh sequence: coordinate degree of the first component mesh, integral over the second", mseq_first, 1, 2)
     return out
